@@ -27,6 +27,10 @@ func readPacket(r io.Reader) (packetType, byte, []byte, error) {
 	pktFlag := buf[0] & 0x0F
 	var remainingLength int
 	for shift := uint(0); ; shift += 7 {
+		if shift > 21 {
+			// The remaining length field is at most four bytes long.
+			return 0, 0, nil, wrapError(ErrInvalidPacketLength, "parsing remaining length")
+		}
 		remainingLength |= (int(buf[1]) & 0x7F) << shift
 		if buf[1]&0x80 == 0 {
 			break
